@@ -286,6 +286,16 @@ package ergo
 //@     (forall t string :: has(g.RDeps, t) ==> g.RDeps[t] != nil && fresh(g.RDeps[t]) && allocated(g.RDeps[t])) &&
 //@     (forall f string, t string :: has(g.Deps, f) && has(g.RDeps, t) ==> g.Deps[f] != g.RDeps[t])
 
+//@ spec isResultFor(e Event, k string) bool =
+//@     e.Type == "result" && decOK_ResultEvent(content(e.Data)) && dec_ResultEvent(content(e.Data)).TaskID == k &&
+//@     parseOK(dec_ResultEvent(content(e.Data)).TS)
+//@ spec resultIs(r Result, e Event) bool =
+//@     r.Summary == dec_ResultEvent(content(e.Data)).Summary && r.Path == dec_ResultEvent(content(e.Data)).Path &&
+//@     r.Sha256AtAttach == dec_ResultEvent(content(e.Data)).Sha256AtAttach &&
+//@     r.MtimeAtAttach == dec_ResultEvent(content(e.Data)).MtimeAtAttach &&
+//@     r.GitCommitAtAttach == dec_ResultEvent(content(e.Data)).GitCommitAtAttach &&
+//@     r.CreatedAt == parseVal(dec_ResultEvent(content(e.Data)).TS)
+
 //@ func replayEvents
 //@   ensures [nil-on-error] err != nil ==> ret0 == nil
 //@   ensures [wf] err == nil ==> wfMaps(ret0) && wfDeps(ret0) && wfTasks(ret0)
@@ -296,8 +306,16 @@ package ergo
 //@   invariant [fresh] freshGraph(graph)
 //@   invariant [tomb-excluded] tombExcluded(graph)
 //@   invariant [rdeps-empty] forall t string :: !has(graph.RDeps, t)
+//@   invariant [results-allocated] forall k string :: has(graph.Tasks, k) ==> allocated(graph.Tasks[k].Results)
 //@   step [state-claim] forall k string :: old(has(graph.Tasks, k)) && has(graph.Tasks, k) ==>
 //@        graph.Tasks[k] == old(graph.Tasks[k]) && stepSC(graph, events[index-1], k)
+//@   step [results-prepend] forall k string :: old(has(graph.Tasks, k)) && has(graph.Tasks, k) && isResultFor(events[index-1], k) ==>
+//@        len(graph.Tasks[k].Results) == old(len(graph.Tasks[k].Results)) + 1 &&
+//@        resultIs(graph.Tasks[k].Results[0], events[index-1]) &&
+//@        (forall i int :: 0 <= i && i < old(len(graph.Tasks[k].Results)) ==> graph.Tasks[k].Results[i+1] == old(graph.Tasks[k].Results[i]))
+//@   step [results-untouched] forall k string :: old(has(graph.Tasks, k)) && has(graph.Tasks, k) && !isResultFor(events[index-1], k) ==>
+//@        len(graph.Tasks[k].Results) == old(len(graph.Tasks[k].Results)) &&
+//@        (forall i int :: 0 <= i && i < len(graph.Tasks[k].Results) ==> graph.Tasks[k].Results[i] == old(graph.Tasks[k].Results[i]))
 //@ loop 1 range graph.Deps
 //@   invariant [inv] replayInv(graph)
 //@   invariant [rdeps] rdepsWf(graph)
@@ -324,8 +342,11 @@ package ergo
 //@ ghost fsWrites int
 
 //@ func ensureFileExists
-//@   ensures [true] true
-//@   modifies ghost fsWrites
+//@   ensures [exists-after] ret == nil ==> fileExists(path)
+//@   ensures [others-kept] forall p string :: p != path ==> (fileExists(p) <==> old(fileExists(p)))
+//@   ensures [never-removes] old(fileExists(path)) ==> fileExists(path)
+//@   ensures [no-write-if-present] old(fileExists(path)) ==> fsWrites == old(fsWrites)
+//@   modifies ghost fsWrites, ghost fsExists
 
 //@ func withLock
 //@   requires [unlocked] lk == 0
@@ -337,13 +358,13 @@ package ergo
 //@   ensures  [busy-epoch] !called ==> epoch == old(epoch)
 //@   ensures  [epoch] called ==> epoch == old(epoch) + 1
 //@   ensures  [never-blocks] blocking == old(blocking)
-//@   modifies ghost lk, ghost epoch, ghost blocking, ghost fsWrites
+//@   ensures  [only-lock-file-created] forall p string :: p != path ==> (fileExists(p) <==> old(fileExists(p)))
+//@   modifies ghost lk, ghost epoch, ghost blocking, ghost fsWrites, ghost fsExists
 
 // Storage primitives. Their bodies are file-system code; until the storage layer is under contract
 // (see the C03/C04 section) these contracts are ASSUMED and listed as such in every evidence file.
 //@ func getEventsPath
-//@   trusted chooses plans.jsonl / events.jsonl by os.Stat; no effect on ghost state
-//@   ensures [true] true
+//@   ensures [choice] ret == activeLog(dir)
 //@   modifies nothing
 //@ func ergoDir
 //@   trusted directory discovery (os.Getwd, os.Stat, filepath); no effect on ghost state
@@ -406,7 +427,7 @@ package ergo
 //@   ensures [one-commit] commits <= old(commits) + 1
 //@   ensures [json-one-value] opts.JSON && ret == nil ==> stdoutJSON == old(stdoutJSON) + 1 && stdoutText == old(stdoutText)
 //@   ensures [json-error-quiet] opts.JSON && ret != nil ==> stdoutJSON <= old(stdoutJSON) + 1 && stdoutText == old(stdoutText)
-//@   modifies ghost lk, ghost epoch, ghost blocking, ghost fsWrites, ghost logv, ghost commits, ghost appended, ghost readEpoch
+//@   modifies ghost lk, ghost epoch, ghost blocking, ghost fsWrites, ghost fsExists, ghost logv, ghost commits, ghost appended, ghost readEpoch
 //@   modifies ghost stdoutJSON, ghost stdoutText, ghost stderrText
 
 // ---- the set path (C06, C10, C02) ----
@@ -492,7 +513,7 @@ package ergo
 //@   ensures [fail-unchanged] ret != nil ==> logv == old(logv) && commits == old(commits)
 //@   ensures [one-commit] commits <= old(commits) + 1
 //@   ensures [committed] ret == nil ==> commits == old(commits) + 1 && logv == old(logv) + 1
-//@   modifies ghost lk, ghost epoch, ghost blocking, ghost fsWrites, ghost logv, ghost commits, ghost appended, ghost readEpoch
+//@   modifies ghost lk, ghost epoch, ghost blocking, ghost fsWrites, ghost fsExists, ghost logv, ghost commits, ghost appended, ghost readEpoch
 
 //@ func buildSequenceEdges
 //@   ensures [count] len(order) >= 2 ==> len(ret) == len(order) - 1
@@ -513,7 +534,7 @@ package ergo
 //@   canary  [two-commits] !(ret == nil && commits == old(commits) + 2)
 //@   ensures [json-one-value] opts.JSON && ret == nil ==> stdoutJSON == old(stdoutJSON) + 1 && stdoutText == old(stdoutText)
 //@   ensures [json-error-quiet] opts.JSON && ret != nil ==> stdoutJSON == old(stdoutJSON) && stdoutText == old(stdoutText)
-//@   modifies ghost lk, ghost epoch, ghost blocking, ghost fsWrites, ghost logv, ghost commits, ghost appended, ghost readEpoch
+//@   modifies ghost lk, ghost epoch, ghost blocking, ghost fsWrites, ghost fsExists, ghost logv, ghost commits, ghost appended, ghost readEpoch
 //@   modifies ghost stdoutJSON, ghost stdoutText, ghost stderrText
 //@ loop 0 range edges
 //@   invariant [progress] lk == 0 && blocking == old(blocking) && commits == old(commits) + index && logv == old(logv) + index && index <= len(edges)
@@ -568,7 +589,7 @@ package ergo
 //@   ensures [committed] err == nil ==> commits == old(commits) + 1 && logv == old(logv) + 1
 //@   ensures [reply] err == nil ==> ret0.State == "todo" && ret0.Title == title && ret0.Body == body
 //@   ensures [quiet] stdoutJSON == old(stdoutJSON) && stdoutText == old(stdoutText)
-//@   modifies ghost lk, ghost epoch, ghost blocking, ghost fsWrites, ghost logv, ghost commits, ghost appended, ghost readEpoch
+//@   modifies ghost lk, ghost epoch, ghost blocking, ghost fsWrites, ghost fsExists, ghost logv, ghost commits, ghost appended, ghost readEpoch
 //@ func createTask
 //@   requires [unlocked] lk == 0
 //@   ensures [released] lk == 0
@@ -578,7 +599,7 @@ package ergo
 //@   ensures [committed] err == nil ==> commits == old(commits) + 1 && logv == old(logv) + 1
 //@   ensures [reply] err == nil ==> ret0.State == "todo" && ret0.Title == title && ret0.Body == body
 //@   ensures [quiet] stdoutJSON == old(stdoutJSON) && stdoutText == old(stdoutText)
-//@   modifies ghost lk, ghost epoch, ghost blocking, ghost fsWrites, ghost logv, ghost commits, ghost appended, ghost readEpoch
+//@   modifies ghost lk, ghost epoch, ghost blocking, ghost fsWrites, ghost fsExists, ghost logv, ghost commits, ghost appended, ghost readEpoch
 
 // ---- prune (C09, C02, C10) ----
 //@ func buildPruneItems
@@ -618,7 +639,7 @@ package ergo
 //@   ensures [one-commit] commits <= old(commits) + 1
 //@   ensures [dry-run-pure] !apply ==> logv == old(logv) && commits == old(commits)
 //@   ensures [quiet] stdoutJSON == old(stdoutJSON) && stdoutText == old(stdoutText)
-//@   modifies ghost lk, ghost epoch, ghost blocking, ghost fsWrites, ghost logv, ghost commits, ghost appended, ghost readEpoch
+//@   modifies ghost lk, ghost epoch, ghost blocking, ghost fsWrites, ghost fsExists, ghost logv, ghost commits, ghost appended, ghost readEpoch
 
 // ---- results (C20, C10, C02) ----
 //@ func validateResultPath
@@ -652,7 +673,7 @@ package ergo
 //@   ensures [one-commit] commits <= old(commits) + 1
 //@   ensures [committed] ret == nil ==> commits == old(commits) + 1 && logv == old(logv) + 1
 //@   ensures [quiet] stdoutJSON == old(stdoutJSON) && stdoutText == old(stdoutText)
-//@   modifies ghost lk, ghost epoch, ghost blocking, ghost fsWrites, ghost logv, ghost commits, ghost appended, ghost readEpoch
+//@   modifies ghost lk, ghost epoch, ghost blocking, ghost fsWrites, ghost fsExists, ghost logv, ghost commits, ghost appended, ghost readEpoch
 
 //@ func applySetUpdates
 //@   requires [unlocked] lk == 0
@@ -664,7 +685,7 @@ package ergo
 //@   ensures [json-quiet] quiet ==> stdoutText == old(stdoutText)
 //@   ensures [no-json] stdoutJSON == old(stdoutJSON)
 //@   ensures [version-tracks-commits] logv - old(logv) == commits - old(commits) && commits >= old(commits)
-//@   modifies ghost lk, ghost epoch, ghost blocking, ghost fsWrites, ghost logv, ghost commits, ghost appended, ghost readEpoch
+//@   modifies ghost lk, ghost epoch, ghost blocking, ghost fsWrites, ghost fsExists, ghost logv, ghost commits, ghost appended, ghost readEpoch
 //@   modifies ghost stdoutText, map[string]string at updates
 
 // ---- rewrite primitives and compaction (C05, C02) ----
@@ -701,7 +722,7 @@ package ergo
 //@   ensures [one-commit] commits <= old(commits) + 1
 //@   ensures [json-one-value] opts.JSON && ret == nil ==> stdoutJSON == old(stdoutJSON) + 1 && stdoutText == old(stdoutText)
 //@   ensures [json-error-quiet] opts.JSON && ret != nil ==> stdoutJSON == old(stdoutJSON) && stdoutText == old(stdoutText)
-//@   modifies ghost lk, ghost epoch, ghost blocking, ghost fsWrites, ghost logv, ghost commits, ghost appended, ghost readEpoch
+//@   modifies ghost lk, ghost epoch, ghost blocking, ghost fsWrites, ghost fsExists, ghost logv, ghost commits, ghost appended, ghost readEpoch
 //@   modifies ghost stdoutJSON, ghost stdoutText, ghost stderrText
 
 // ---- command entry points (C02, C10, C16) ----
@@ -745,7 +766,7 @@ package ergo
 //@   ensures [one-commit] commits <= old(commits) + 1
 //@   ensures [json-one-value] opts.JSON && ret == nil ==> stdoutJSON == old(stdoutJSON) + 1 && stdoutText == old(stdoutText)
 //@   ensures [json-error-quiet] opts.JSON && ret != nil ==> stdoutJSON == old(stdoutJSON) && stdoutText == old(stdoutText)
-//@   modifies ghost lk, ghost epoch, ghost blocking, ghost fsWrites, ghost logv, ghost commits, ghost appended, ghost readEpoch
+//@   modifies ghost lk, ghost epoch, ghost blocking, ghost fsWrites, ghost fsExists, ghost logv, ghost commits, ghost appended, ghost readEpoch
 //@   modifies ghost stdoutJSON, ghost stdoutText, ghost stderrText
 
 //@ func RunSet
@@ -756,7 +777,7 @@ package ergo
 //@   ensures [one-commit] commits <= old(commits) + 1
 //@   ensures [json-one-value] opts.JSON && ret == nil ==> stdoutJSON == old(stdoutJSON) + 1 && stdoutText == old(stdoutText)
 //@   ensures [json-error-at-most-one] opts.JSON && ret != nil ==> stdoutJSON <= old(stdoutJSON) + 1 && stdoutText == old(stdoutText)
-//@   modifies ghost lk, ghost epoch, ghost blocking, ghost fsWrites, ghost logv, ghost commits, ghost appended, ghost readEpoch
+//@   modifies ghost lk, ghost epoch, ghost blocking, ghost fsWrites, ghost fsExists, ghost logv, ghost commits, ghost appended, ghost readEpoch
 //@   modifies ghost stdoutJSON, ghost stdoutText, ghost stderrText
 
 //@ func RunNewEpic
@@ -767,7 +788,7 @@ package ergo
 //@   ensures [one-commit] commits <= old(commits) + 1
 //@   ensures [json-one-value] opts.JSON && ret == nil ==> stdoutJSON == old(stdoutJSON) + 1 && stdoutText == old(stdoutText)
 //@   ensures [json-error-at-most-one] opts.JSON && ret != nil ==> stdoutJSON <= old(stdoutJSON) + 1 && stdoutText == old(stdoutText)
-//@   modifies ghost lk, ghost epoch, ghost blocking, ghost fsWrites, ghost logv, ghost commits, ghost appended, ghost readEpoch
+//@   modifies ghost lk, ghost epoch, ghost blocking, ghost fsWrites, ghost fsExists, ghost logv, ghost commits, ghost appended, ghost readEpoch
 //@   modifies ghost stdoutJSON, ghost stdoutText, ghost stderrText
 
 //@ func RunNewTask
@@ -778,7 +799,7 @@ package ergo
 //@   ensures [one-commit] commits <= old(commits) + 1
 //@   ensures [json-one-value] opts.JSON && ret == nil ==> stdoutJSON == old(stdoutJSON) + 1 && stdoutText == old(stdoutText)
 //@   ensures [json-error-at-most-one] opts.JSON && ret != nil ==> stdoutJSON <= old(stdoutJSON) + 1 && stdoutText == old(stdoutText)
-//@   modifies ghost lk, ghost epoch, ghost blocking, ghost fsWrites, ghost logv, ghost commits, ghost appended, ghost readEpoch
+//@   modifies ghost lk, ghost epoch, ghost blocking, ghost fsWrites, ghost fsExists, ghost logv, ghost commits, ghost appended, ghost readEpoch
 //@   modifies ghost stdoutJSON, ghost stdoutText, ghost stderrText
 
 //@ func (*TaskInput).ToKeyValueMap
@@ -828,7 +849,7 @@ package ergo
 //@   ensures [never-blocks] blocking == old(blocking)
 //@   ensures [read-pure] logv == old(logv) && commits == old(commits)
 //@   ensures [quiet] stdoutJSON == old(stdoutJSON) && stdoutText == old(stdoutText)
-//@   modifies ghost lk, ghost epoch, ghost blocking, ghost fsWrites, ghost logv, ghost commits, ghost appended, ghost readEpoch
+//@   modifies ghost lk, ghost epoch, ghost blocking, ghost fsWrites, ghost fsExists, ghost logv, ghost commits, ghost appended, ghost readEpoch
 //@ func RunPruneApply
 //@   requires [unlocked] lk == 0
 //@   ensures [released] lk == 0
@@ -836,7 +857,7 @@ package ergo
 //@   ensures [fail-unchanged] err != nil ==> logv == old(logv) && commits == old(commits)
 //@   ensures [one-commit] commits <= old(commits) + 1
 //@   ensures [quiet] stdoutJSON == old(stdoutJSON) && stdoutText == old(stdoutText)
-//@   modifies ghost lk, ghost epoch, ghost blocking, ghost fsWrites, ghost logv, ghost commits, ghost appended, ghost readEpoch
+//@   modifies ghost lk, ghost epoch, ghost blocking, ghost fsWrites, ghost fsExists, ghost logv, ghost commits, ghost appended, ghost readEpoch
 //@ func RunPrune
 //@   requires [unlocked] lk == 0
 //@   ensures [released] lk == 0
@@ -846,7 +867,7 @@ package ergo
 //@   ensures [dry-run-pure] !confirm ==> logv == old(logv) && commits == old(commits)
 //@   ensures [json-one-value] opts.JSON && ret == nil ==> stdoutJSON == old(stdoutJSON) + 1 && stdoutText == old(stdoutText)
 //@   ensures [json-error-quiet] opts.JSON && ret != nil ==> stdoutJSON == old(stdoutJSON) && stdoutText == old(stdoutText)
-//@   modifies ghost lk, ghost epoch, ghost blocking, ghost fsWrites, ghost logv, ghost commits, ghost appended, ghost readEpoch
+//@   modifies ghost lk, ghost epoch, ghost blocking, ghost fsWrites, ghost fsExists, ghost logv, ghost commits, ghost appended, ghost readEpoch
 //@   modifies ghost stdoutJSON, ghost stdoutText, ghost stderrText
 //@ func RunShow
 //@   requires [unlocked] lk == 0
@@ -856,8 +877,10 @@ package ergo
 //@   modifies ghost readEpoch, ghost stdoutJSON, ghost stdoutText, ghost stderrText
 //@ func RunInit
 //@   ensures [no-log-primitive] logv == old(logv) && commits == old(commits)
+//@   ensures [hides-nothing] old(fileExists(activeLog(target))) ==> activeLog(target) == old(activeLog(target))
+//@   ensures [never-removes] forall p string :: old(fileExists(p)) ==> fileExists(p)
 //@   ensures [json-one-value] opts.JSON && ret == nil ==> stdoutJSON == old(stdoutJSON) + 1 && stdoutText == old(stdoutText)
-//@   modifies ghost fsWrites, ghost stdoutJSON, ghost stdoutText, ghost stderrText
+//@   modifies ghost fsWrites, ghost fsExists, ghost stdoutJSON, ghost stdoutText, ghost stderrText
 
 // ---- list (C08 flags, C12 determinism and read purity, C16, C19 structure) ----
 //@ func buildTaskListItems
@@ -973,3 +996,32 @@ package ergo
 //@   ensures [json-one-value] opts.JSON && ret == nil ==> stdoutJSON == old(stdoutJSON) + 1 && stdoutText == old(stdoutText)
 //@   ensures [json-error-quiet] opts.JSON && ret != nil ==> stdoutJSON == old(stdoutJSON) && stdoutText == old(stdoutText)
 //@   modifies ghost stdoutJSON, ghost stdoutText, ghost stderrText
+
+// ---- store discovery and init (C18) ----
+//@ ghost fsExists pathset
+//@ spec activeLog(dir string) string =
+//@     ite(fileExists(pathJoin(dir, "plans.jsonl")), pathJoin(dir, "plans.jsonl"),
+//@     ite(fileExists(pathJoin(dir, "events.jsonl")), pathJoin(dir, "events.jsonl"), pathJoin(dir, "plans.jsonl")))
+// Trusted string algebra of filepath.Join for the three plain file names of the store:
+//@ axiom [join-names-distinct] forall d string :: pathJoin(d, "plans.jsonl") != pathJoin(d, "events.jsonl") &&
+//@     pathJoin(d, "plans.jsonl") != pathJoin(d, "lock") && pathJoin(d, "events.jsonl") != pathJoin(d, "lock") &&
+//@     pathJoin(d, "plans.jsonl") != d && pathJoin(d, "events.jsonl") != d && pathJoin(d, "lock") != d
+
+// ---- results at read time (C20) ----
+//@ func deriveFileURL
+//@   trusted net/url and filepath string algebra (absolute repoDir gives a file:// URL of the absolute path; see the bounded stand-in resolveErgoDir)
+//@   ensures [true] true
+//@   modifies nothing
+//@ func buildResultOutputItem
+//@   ensures [copy] ret.Summary == result.Summary && ret.Path == result.Path && ret.Sha256AtAttach == result.Sha256AtAttach &&
+//@        ret.MtimeAtAttach == result.MtimeAtAttach && ret.GitCommitAtAttach == result.GitCommitAtAttach && ret.CreatedAt == fmtTime(result.CreatedAt)
+//@   modifies nothing
+//@ func buildResultOutputItems
+//@   ensures [len] len(ret) == len(results)
+//@   ensures [in-order] forall i int :: 0 <= i && i < len(results) ==> ret[i].Summary == results[i].Summary && ret[i].Path == results[i].Path &&
+//@        ret[i].Sha256AtAttach == results[i].Sha256AtAttach && ret[i].CreatedAt == fmtTime(results[i].CreatedAt)
+//@   modifies nothing
+//@ loop 0 range results
+//@   invariant [built] fresh(items) && len(items) == len(results) && index <= len(results)
+//@   invariant [in-order] forall i int :: 0 <= i && i < index ==> items[i].Summary == results[i].Summary && items[i].Path == results[i].Path &&
+//@        items[i].Sha256AtAttach == results[i].Sha256AtAttach && items[i].CreatedAt == fmtTime(results[i].CreatedAt)
